@@ -22,7 +22,8 @@ from sfmon.gen import labels as L
 from sfmon.gen import values as V
 
 PROPERTY = 'C13'
-RULE = ('group cases = (Series|Frame spec whose key cells come from small per-dtype pools without NaN/NaT, block layout, axis, '
+RULE = ('group cases = (Series|Frame spec whose key cells come from small per-dtype pools without NaN/NaT, block layout (each Frame '
+        'group spec in 2 (quick) / 3 (thorough) distinct layouts), axis, '
         'key form in label/list/slice with 1..3 key lines | depth level(s)), each run through items / values / apply / '
         'items-apply forms, one evaluation per form; window cases = (spec with n members, size, step, window_sized, '
         'label_shift, start_shift, size_increment[, window_valid, window_func]) run through iter_window_items / iter_window / '
@@ -648,8 +649,25 @@ def probes(ctx):
     ]
 
 
+def _with_layouts(rng, case, k):
+    """the same Frame spec in up to k distinct block layouts (the drawn one, all 1-D, fully
+    consolidated, further random ones)."""
+    dts = case['spec'].dtypes
+    cands = [case['layout'], F.layout_all_1d(dts), F.layout_max_consolidated(dts)]
+    if len(dts) > 1:
+        cands.extend(rng.sample(F.layouts(dts, limit=24), 2) if len(F.layouts(dts, limit=24)) >= 2 else [])
+    seen = []
+    for lay in cands:
+        lay = list(lay)
+        if lay not in seen:
+            seen.append(lay)
+    for lay in seen[:k]:
+        yield dict(case, layout=lay)
+
+
 def generate(ctx):
     rng = ctx.rng
+    nlay = 2 if ctx.tier == 'quick' else 3
     # (1) enumerated window parameters
     space = list(window_param_space(6))
     share = space[ctx.shard::ctx.nshards]
@@ -661,7 +679,7 @@ def generate(ctx):
             for which in kinds3:
                 yield _win_case(rng, n, params, which)
     # (2) sampled
-    for _ in range(ctx.n(30000, 800000)):
+    for _ in range(ctx.n(24000, 500000)):
         r = rng.random()
         if r < 0.14:
             yield gen_sgroup(rng)
@@ -670,9 +688,9 @@ def generate(ctx):
         elif r < 0.66:
             case = gen_fgroup(rng)
             if case is not None:
-                yield case
+                yield from _with_layouts(rng, case, nlay)
         elif r < 0.78:
-            yield gen_flabels(rng)
+            yield from _with_layouts(rng, gen_flabels(rng), nlay)
         else:
             yield gen_window_sampled(rng)
 
